@@ -42,7 +42,7 @@ KANI_WIRE = [
     {"target": "src/common/oti.rs", "src": "units/wire/kani_oti.rs"},
     {"target": "src/common/fdtinstance.rs", "src": "units/wire/kani_fdtinstance.rs"},
 ]
-KANI_WIRE = [g for g in KANI_WIRE if os.path.exists(os.path.join(VERIF, g["src"]))]
+KANI_WIRE = [g for g in KANI_WIRE if os.path.exists(os.path.join(VERIF, g["src"])) and "@READY" in open(os.path.join(VERIF, g["src"])).read(400)]
 
 TRUST_COMMON = ("trusted: Verus 0.2026.09.13/Z3, Kani 0.68/CBMC, the extractor and its closed rewrite list R1-R13, the std/vstd contracts "
                 "listed one by one under `assumptions` in the evidence file; callee contracts proved in another unit are marked as such")
